@@ -45,6 +45,7 @@ func copyVal(v Val) Val {
 	}
 	return v
 }
+
 type Val interface{}
 
 type Evaluator struct {
